@@ -462,26 +462,24 @@ If the second argument is ommited, the items will be seperated by comma." -/
 /-- the evaluator's `join` in terms of the model's loop `joinGo` (separator given) -/
 theorem join_arr (a b : Expr) (l : List JV) (sep : Str)
     (ha : eval orc fuel a ctx = .ok (some (.arr l))) (hb : eval orc fuel b ctx = .ok (some (.str sep))) :
-    eval orc (fuel + 1) (.call "join" [a, b]) ctx = .ok ((callList.joinGo sep [] l).map JV.str) := by
+    eval orc (fuel + 1) (.call "join" [a, b]) ctx = .ok ((callList.joinGo sep true [] l).map JV.str) := by
   call_simp [ha, hb]
   rfl
 
 /-- separator omitted: `", "` -/
 theorem join_arr_default (a : Expr) (l : List JV) (ha : eval orc fuel a ctx = .ok (some (.arr l))) :
-    eval orc (fuel + 1) (.call "join" [a]) ctx = .ok ((callList.joinGo ", ".toList [] l).map JV.str) := by
+    eval orc (fuel + 1) (.call "join" [a]) ctx = .ok ((callList.joinGo ", ".toList true [] l).map JV.str) := by
   call_simp [ha]
   rfl
 
-/-- once something non-empty has been accumulated every further string is preceded by the separator -/
-theorem joinGo_strs_nonempty (sep acc : Str) (hacc : acc ≠ []) (ss : List Str) :
-    callList.joinGo sep acc (ss.map JV.str) = some (acc ++ (ss.map (sep ++ ·)).flatten) := by
+/-- after the first item every further string is preceded by the separator -/
+theorem joinGo_strs_rest (sep acc : Str) (ss : List Str) :
+    callList.joinGo sep false acc (ss.map JV.str) = some (acc ++ (ss.map (sep ++ ·)).flatten) := by
   induction ss generalizing acc with
   | nil => simp [callList.joinGo]
   | cons s ss ih =>
-    have hne : List.isEmpty acc = false := by cases acc <;> simp_all
-    have h2 : acc ++ sep ++ s ≠ [] := by simp [hacc]
-    simp only [List.map_cons, callList.joinGo, hne, Bool.false_eq_true, if_false]
-    rw [ih _ h2]
+    simp only [List.map_cons, callList.joinGo, Bool.false_eq_true, if_false]
+    rw [ih]
     simp [List.append_assoc]
 
 theorem intercalate_cons_eq (sep s : Str) (ss : List Str) :
@@ -493,24 +491,18 @@ theorem intercalate_cons_eq (sep s : Str) (ss : List Str) :
     simp only [List.intercalate] at h ⊢
     simp only [List.map_cons, List.flatten_cons, List.intersperse_cons_cons, ← h, List.append_assoc]
 
-/-- a list of strings whose first one is not empty is joined with the separator between consecutive items -/
-theorem joinGo_strs (sep s : Str) (hs : s ≠ []) (ss : List Str) :
-    callList.joinGo sep [] ((s :: ss).map JV.str) = some (sep.intercalate (s :: ss)) := by
-  simp only [List.map_cons, callList.joinGo, List.isEmpty_nil, if_true, List.nil_append,
-    joinGo_strs_nonempty sep s hs ss]
+/-- a list of strings is joined with the separator between consecutive items — empty strings included -/
+theorem joinGo_strs (sep s : Str) (ss : List Str) :
+    callList.joinGo sep true [] ((s :: ss).map JV.str) = some (sep.intercalate (s :: ss)) := by
+  simp only [List.map_cons, callList.joinGo, if_true, List.nil_append, joinGo_strs_rest sep s ss]
   rw [intercalate_cons_eq]
 
-/-- leading empty strings do not get a separator (the Rust tests `!str.is_empty()` instead of "first item") -/
-theorem joinGo_nil_cons (sep : Str) (rest : List JV) :
-    callList.joinGo sep [] (JV.str [] :: rest) = callList.joinGo sep [] rest := by
-  simp [callList.joinGo]
-
-theorem joinGo_nil (sep : Str) : callList.joinGo sep [] [] = some [] := rfl
+theorem joinGo_nil (sep : Str) : callList.joinGo sep true [] [] = some [] := rfl
 
 /-- an item that is not a string makes the result nothing -/
-theorem joinGo_non_string (sep acc : Str) (l : List JV) (h : ∃ v ∈ l, ∀ s, v ≠ JV.str s) :
-    callList.joinGo sep acc l = none := by
-  induction l generalizing acc with
+theorem joinGo_non_string (sep : Str) (first : Bool) (acc : Str) (l : List JV) (h : ∃ v ∈ l, ∀ s, v ≠ JV.str s) :
+    callList.joinGo sep first acc l = none := by
+  induction l generalizing acc first with
   | nil => simp at h
   | cons x xs ih =>
     obtain ⟨v, hv, hns⟩ := h
@@ -523,25 +515,25 @@ theorem joinGo_non_string (sep acc : Str) (l : List JV) (h : ∃ v ∈ l, ∀ s,
       · exact ⟨v, h', hns⟩
     | _ => simp [callList.joinGo]
 
-theorem join_strs (a b : Expr) (s : Str) (ss : List Str) (sep : Str) (hs : s ≠ [])
+theorem join_strs (a b : Expr) (s : Str) (ss : List Str) (sep : Str)
     (ha : eval orc fuel a ctx = .ok (some (.arr ((s :: ss).map JV.str))))
     (hb : eval orc fuel b ctx = .ok (some (.str sep))) :
     eval orc (fuel + 1) (.call "join" [a, b]) ctx = .ok (some (.str (sep.intercalate (s :: ss)))) := by
-  rw [join_arr orc fuel ctx a b _ sep ha hb, joinGo_strs sep s hs ss]; rfl
+  rw [join_arr orc fuel ctx a b _ sep ha hb, joinGo_strs sep s ss]; rfl
 
 theorem join_non_string (a b : Expr) (l : List JV) (sep : Str) (h : ∃ v ∈ l, ∀ s, v ≠ JV.str s)
     (ha : eval orc fuel a ctx = .ok (some (.arr l))) (hb : eval orc fuel b ctx = .ok (some (.str sep))) :
     eval orc (fuel + 1) (.call "join" [a, b]) ctx = .ok none := by
-  rw [join_arr orc fuel ctx a b _ sep ha hb, joinGo_non_string sep [] l h]; rfl
+  rw [join_arr orc fuel ctx a b _ sep ha hb, joinGo_non_string sep true [] l h]; rfl
 
 example : eval {} 5 (.call "join" [.const (.arr [.str "one".toList, .str "two".toList, .str "three".toList])]) {}
     = .ok (some (.str "one, two, three".toList)) := by
   rw [join_arr_default {} 4 {} _ _ rfl]; rfl
 example : eval {} 5 (.call "join" [.const (.arr [.str "a".toList, .str "b".toList]), .const (.str ";".toList)]) {}
     = .ok (some (.str "a;b".toList)) :=
-  join_strs {} 4 {} _ _ "a".toList ["b".toList] ";".toList (by decide) rfl rfl
-/-- the quirk: `join ["", "a"]` is `"a"`, not `", a"` -/
-example : eval {} 5 (.call "join" [.const (.arr [.str [], .str "a".toList])]) {} = .ok (some (.str "a".toList)) := by
+  join_strs {} 4 {} _ _ "a".toList ["b".toList] ";".toList rfl rfl
+/-- an empty first item is an item like any other (repaired defect): `join ["", "a"]` is `", a"` -/
+example : eval {} 5 (.call "join" [.const (.arr [.str [], .str "a".toList])]) {} = .ok (some (.str ", a".toList)) := by
   rw [join_arr_default {} 4 {} _ _ rfl]; rfl
 
 /-! ## 4. `get` ("Get an item from an array by index or from a map by key"), `keys`, `values`, `entries` -/
@@ -1175,5 +1167,631 @@ example : eval {} 5 (.call "keys" [.const (.arr [.null])]) {} = .ok none :=
 /-- an argument that is nothing (here: a variable that is not set) -/
 example : eval {} 5 (.call "size" [.var "x".toList]) {} = .ok none :=
   size_wrong_type {} 4 {} _ none rfl rfl
+
+/-! ## 7. Boolean functions -/
+
+def isBool : Option JV → Bool
+  | some (.bool _) => true
+  | _ => false
+
+/-- `and`: "Return true if all the arguments are true, nothing if there is a non boolean argument and false if
+there is a false argument." — truth table on two booleans -/
+theorem and_bool (a b : Expr) (x y : Bool)
+    (ha : eval orc fuel a ctx = .ok (some (.bool x))) (hb : eval orc fuel b ctx = .ok (some (.bool y))) :
+    eval orc (fuel + 1) (.call "and" [a, b]) ctx = .ok (some (.bool (x && y))) := by
+  call_simp [ha, hb, foldArgs]
+  cases x <;> cases y <;> simp
+
+/-- evaluation is left to right and stops at the first `false`: the second argument is not evaluated -/
+theorem and_false_left (a b : Expr) (ha : eval orc fuel a ctx = .ok (some (.bool false))) :
+    eval orc (fuel + 1) (.call "and" [a, b]) ctx = .ok (some (.bool false)) := by
+  call_simp [ha, foldArgs]
+
+theorem and_non_bool_left (a b : Expr) (v : Option JV) (hv : isBool v = false)
+    (ha : eval orc fuel a ctx = .ok v) :
+    eval orc (fuel + 1) (.call "and" [a, b]) ctx = .ok none := by
+  call_simp [ha, foldArgs]
+  rcases v with _ | (_ | (_ | _) | _ | _ | _ | _) <;> simp_all [isBool]
+
+theorem and_non_bool_right (a b : Expr) (w : Option JV) (hw : isBool w = false)
+    (ha : eval orc fuel a ctx = .ok (some (.bool true))) (hb : eval orc fuel b ctx = .ok w) :
+    eval orc (fuel + 1) (.call "and" [a, b]) ctx = .ok none := by
+  call_simp [ha, hb, foldArgs]
+  rcases w with _ | (_ | (_ | _) | _ | _ | _ | _) <;> simp_all [isBool]
+
+/-- any number of arguments, all `true` -/
+theorem and_all_true (args : List Expr) (h : ∀ e ∈ args, eval orc fuel e ctx = .ok (some (.bool true))) :
+    eval orc (fuel + 1) (.call "and" args) ctx = .ok (some (.bool true)) := by
+  simp only [eval, callFn, callBasic]
+  induction args with
+  | nil => rfl
+  | cons e es ih =>
+    simp only [foldArgs, h e List.mem_cons_self, bind, Except.bind]
+    exact ih (fun e' he' => h e' (List.mem_cons_of_mem _ he'))
+
+/-- any number of arguments: `true`s, then a `false` (the rest is not evaluated) -/
+theorem and_first_false (pre post : List Expr) (e : Expr)
+    (h : ∀ e' ∈ pre, eval orc fuel e' ctx = .ok (some (.bool true)))
+    (he : eval orc fuel e ctx = .ok (some (.bool false))) :
+    eval orc (fuel + 1) (.call "and" (pre ++ e :: post)) ctx = .ok (some (.bool false)) := by
+  simp only [eval, callFn, callBasic]
+  induction pre with
+  | nil => simp only [List.nil_append, foldArgs, he, bind, Except.bind, jbool]
+  | cons p ps ih =>
+    simp only [List.cons_append, foldArgs, h p List.mem_cons_self, bind, Except.bind]
+    exact ih (fun e' he' => h e' (List.mem_cons_of_mem _ he'))
+
+/-- `or`: "Return true if any of the arguments are true, nothing if there is a non boolean argument and false if
+all the arguments are false." -/
+theorem or_bool (a b : Expr) (x y : Bool)
+    (ha : eval orc fuel a ctx = .ok (some (.bool x))) (hb : eval orc fuel b ctx = .ok (some (.bool y))) :
+    eval orc (fuel + 1) (.call "or" [a, b]) ctx = .ok (some (.bool (x || y))) := by
+  call_simp [ha, hb, foldArgs]
+  cases x <;> cases y <;> simp
+
+theorem or_true_left (a b : Expr) (ha : eval orc fuel a ctx = .ok (some (.bool true))) :
+    eval orc (fuel + 1) (.call "or" [a, b]) ctx = .ok (some (.bool true)) := by
+  call_simp [ha, foldArgs]
+
+theorem or_non_bool_left (a b : Expr) (v : Option JV) (hv : isBool v = false)
+    (ha : eval orc fuel a ctx = .ok v) :
+    eval orc (fuel + 1) (.call "or" [a, b]) ctx = .ok none := by
+  call_simp [ha, foldArgs]
+  rcases v with _ | (_ | (_ | _) | _ | _ | _ | _) <;> simp_all [isBool]
+
+theorem or_non_bool_right (a b : Expr) (w : Option JV) (hw : isBool w = false)
+    (ha : eval orc fuel a ctx = .ok (some (.bool false))) (hb : eval orc fuel b ctx = .ok w) :
+    eval orc (fuel + 1) (.call "or" [a, b]) ctx = .ok none := by
+  call_simp [ha, hb, foldArgs]
+  rcases w with _ | (_ | (_ | _) | _ | _ | _ | _) <;> simp_all [isBool]
+
+theorem or_all_false (args : List Expr) (h : ∀ e ∈ args, eval orc fuel e ctx = .ok (some (.bool false))) :
+    eval orc (fuel + 1) (.call "or" args) ctx = .ok (some (.bool false)) := by
+  simp only [eval, callFn, callBasic]
+  induction args with
+  | nil => rfl
+  | cons e es ih =>
+    simp only [foldArgs, h e List.mem_cons_self, bind, Except.bind]
+    exact ih (fun e' he' => h e' (List.mem_cons_of_mem _ he'))
+
+theorem or_first_true (pre post : List Expr) (e : Expr)
+    (h : ∀ e' ∈ pre, eval orc fuel e' ctx = .ok (some (.bool false)))
+    (he : eval orc fuel e ctx = .ok (some (.bool true))) :
+    eval orc (fuel + 1) (.call "or" (pre ++ e :: post)) ctx = .ok (some (.bool true)) := by
+  simp only [eval, callFn, callBasic]
+  induction pre with
+  | nil => simp only [List.nil_append, foldArgs, he, bind, Except.bind, jbool]
+  | cons p ps ih =>
+    simp only [List.cons_append, foldArgs, h p List.mem_cons_self, bind, Except.bind]
+    exact ih (fun e' he' => h e' (List.mem_cons_of_mem _ he'))
+
+/-- `not`: "Return false if the argument is true and true if the argument is false." -/
+theorem not_bool (a : Expr) (x : Bool) (ha : eval orc fuel a ctx = .ok (some (.bool x))) :
+    eval orc (fuel + 1) (.call "not" [a]) ctx = .ok (some (.bool (!x))) := by
+  call_simp [ha]
+
+theorem not_non_bool (a : Expr) (v : Option JV) (hv : isBool v = false) (ha : eval orc fuel a ctx = .ok v) :
+    eval orc (fuel + 1) (.call "not" [a]) ctx = .ok none := by
+  call_simp [ha]
+  rcases v with _ | (_ | _ | _ | _ | _ | _) <;> simp_all [isBool]
+
+theorem not_not (a : Expr) (x : Bool) (ha : eval orc fuel a ctx = .ok (some (.bool x))) :
+    eval orc (fuel + 2) (.call "not" [.call "not" [a]]) ctx = .ok (some (.bool x)) := by
+  rw [not_bool orc (fuel + 1) ctx _ _ (not_bool orc fuel ctx a x ha), Bool.not_not]
+
+/-- `xor`: "Return true if one, and only one, of the argument is true." -/
+theorem xor_bool (a b : Expr) (x y : Bool)
+    (ha : eval orc fuel a ctx = .ok (some (.bool x))) (hb : eval orc fuel b ctx = .ok (some (.bool y))) :
+    eval orc (fuel + 1) (.call "xor" [a, b]) ctx = .ok (some (.bool (x != y))) := by
+  call_simp [ha, hb]
+
+theorem xor_non_bool (a b : Expr) (v w : Option JV) (h : isBool v = false ∨ isBool w = false)
+    (ha : eval orc fuel a ctx = .ok v) (hb : eval orc fuel b ctx = .ok w) :
+    eval orc (fuel + 1) (.call "xor" [a, b]) ctx = .ok none := by
+  call_simp [ha, hb]
+  rcases v with _ | (_ | _ | _ | _ | _ | _) <;> rcases w with _ | (_ | _ | _ | _ | _ | _) <;> simp_all [isBool]
+
+/-- De Morgan: `(not (and a b)) = (or (not a) (not b))` on booleans -/
+theorem not_and (a b : Expr) (x y : Bool)
+    (ha : eval orc fuel a ctx = .ok (some (.bool x))) (hb : eval orc fuel b ctx = .ok (some (.bool y))) :
+    eval orc (fuel + 2) (.call "not" [.call "and" [a, b]]) ctx =
+      eval orc (fuel + 2) (.call "or" [.call "not" [a], .call "not" [b]]) ctx := by
+  rw [not_bool orc (fuel + 1) ctx _ _ (and_bool orc fuel ctx a b x y ha hb),
+    or_bool orc (fuel + 1) ctx _ _ _ _ (not_bool orc fuel ctx a x ha) (not_bool orc fuel ctx b y hb), Bool.not_and]
+
+example : eval {} 5 (.call "and" [.const (.bool true), .const (.bool false)]) {} = .ok (some (.bool false)) :=
+  and_bool {} 4 {} _ _ true false rfl rfl
+example : eval {} 5 (.call "or" [.const (.bool false), .const (.num (.pos 1))]) {} = .ok none :=
+  or_non_bool_right {} 4 {} _ _ (some (.num (.pos 1))) rfl rfl rfl
+/-- short circuit: `(and false <abort>)` is `false` -/
+example : eval {} 5 (.call "and" [.const (.bool false), .call "no-such-function" []]) {} = .ok (some (.bool false)) :=
+  and_false_left {} 4 {} _ _ rfl
+example : eval {} 5 (.call "xor" [.const (.bool true), .const (.bool true)]) {} = .ok (some (.bool false)) :=
+  xor_bool {} 4 {} _ _ true true rfl rfl
+
+/-! ## 8. Comparison and flow -/
+
+/-- `=`: "Compare two value and return true if both are equals." -/
+theorem eq_vals (a b : Expr) (x y : JV)
+    (ha : eval orc fuel a ctx = .ok (some x)) (hb : eval orc fuel b ctx = .ok (some y)) :
+    eval orc (fuel + 1) (.call "=" [a, b]) ctx = .ok (some (.bool (JV.beq x y))) := by
+  call_simp [ha, hb]
+
+theorem neq_vals (a b : Expr) (x y : JV)
+    (ha : eval orc fuel a ctx = .ok (some x)) (hb : eval orc fuel b ctx = .ok (some y)) :
+    eval orc (fuel + 1) (.call "!=" [a, b]) ctx = .ok (some (.bool (!JV.beq x y))) := by
+  call_simp [ha, hb]
+
+/-- the order comparisons are those of `JV.cmp` (`impl Ord for JsonValue`) -/
+theorem lt_vals (a b : Expr) (x y : JV)
+    (ha : eval orc fuel a ctx = .ok (some x)) (hb : eval orc fuel b ctx = .ok (some y)) :
+    eval orc (fuel + 1) (.call "<" [a, b]) ctx = .ok (some (.bool (JV.cmp x y == .lt))) := by
+  call_simp [ha, hb]
+
+theorem le_vals (a b : Expr) (x y : JV)
+    (ha : eval orc fuel a ctx = .ok (some x)) (hb : eval orc fuel b ctx = .ok (some y)) :
+    eval orc (fuel + 1) (.call "<=" [a, b]) ctx = .ok (some (.bool (JV.cmp x y != .gt))) := by
+  call_simp [ha, hb]
+
+theorem gt_vals (a b : Expr) (x y : JV)
+    (ha : eval orc fuel a ctx = .ok (some x)) (hb : eval orc fuel b ctx = .ok (some y)) :
+    eval orc (fuel + 1) (.call ">" [a, b]) ctx = .ok (some (.bool (JV.cmp x y == .gt))) := by
+  call_simp [ha, hb]
+
+theorem ge_vals (a b : Expr) (x y : JV)
+    (ha : eval orc fuel a ctx = .ok (some x)) (hb : eval orc fuel b ctx = .ok (some y)) :
+    eval orc (fuel + 1) (.call ">=" [a, b]) ctx = .ok (some (.bool (JV.cmp x y != .lt))) := by
+  call_simp [ha, hb]
+
+/-- a comparison with nothing on either side is nothing -/
+theorem cmp_nothing (op : String) (hop : op ∈ ["=", "!=", "<", "<=", ">", ">="]) (a b : Expr) (v w : Option JV)
+    (h : v = none ∨ w = none)
+    (ha : eval orc fuel a ctx = .ok v) (hb : eval orc fuel b ctx = .ok w) :
+    eval orc (fuel + 1) (.call op [a, b]) ctx = .ok none := by
+  simp only [List.mem_cons, List.not_mem_nil, or_false] at hop
+  rcases hop with rfl | rfl | rfl | rfl | rfl | rfl <;>
+  · call_simp [ha, hb]
+    rcases h with rfl | rfl
+    · rfl
+    · cases v <;> rfl
+
+/-- the six comparisons are consistent with one another: `!=` negates `=`, `>=` negates `<`, `<=` negates `>` -/
+theorem neq_eq_not_eq (a b : Expr) (x y : JV)
+    (ha : eval orc fuel a ctx = .ok (some x)) (hb : eval orc fuel b ctx = .ok (some y)) :
+    eval orc (fuel + 2) (.call "not" [.call "=" [a, b]]) ctx = eval orc (fuel + 1) (.call "!=" [a, b]) ctx := by
+  rw [not_bool orc (fuel + 1) ctx _ _ (eq_vals orc fuel ctx a b x y ha hb), neq_vals orc fuel ctx a b x y ha hb]
+
+theorem ge_eq_not_lt (a b : Expr) (x y : JV)
+    (ha : eval orc fuel a ctx = .ok (some x)) (hb : eval orc fuel b ctx = .ok (some y)) :
+    eval orc (fuel + 2) (.call "not" [.call "<" [a, b]]) ctx = eval orc (fuel + 1) (.call ">=" [a, b]) ctx := by
+  rw [not_bool orc (fuel + 1) ctx _ _ (lt_vals orc fuel ctx a b x y ha hb), ge_vals orc fuel ctx a b x y ha hb]
+  rfl
+
+theorem le_eq_not_gt (a b : Expr) (x y : JV)
+    (ha : eval orc fuel a ctx = .ok (some x)) (hb : eval orc fuel b ctx = .ok (some y)) :
+    eval orc (fuel + 2) (.call "not" [.call ">" [a, b]]) ctx = eval orc (fuel + 1) (.call "<=" [a, b]) ctx := by
+  rw [not_bool orc (fuel + 1) ctx _ _ (gt_vals orc fuel ctx a b x y ha hb), le_vals orc fuel ctx a b x y ha hb]
+  rfl
+
+/-- `?` / `if`: "Return the second argument if the first argument is true. Return the third argument if the first
+is false. Return nothing if the first argument is not Boolean".  Only the selected branch is evaluated. -/
+theorem cond_true (c a b : Expr) (hc : eval orc fuel c ctx = .ok (some (.bool true))) :
+    eval orc (fuel + 1) (.call "?" [c, a, b]) ctx = eval orc fuel a ctx := by
+  call_simp [hc]
+
+theorem cond_false (c a b : Expr) (hc : eval orc fuel c ctx = .ok (some (.bool false))) :
+    eval orc (fuel + 1) (.call "?" [c, a, b]) ctx = eval orc fuel b ctx := by
+  call_simp [hc]
+
+theorem cond_non_bool (c a b : Expr) (v : Option JV) (hv : isBool v = false) (hc : eval orc fuel c ctx = .ok v) :
+    eval orc (fuel + 1) (.call "?" [c, a, b]) ctx = .ok none := by
+  call_simp [hc]
+  rcases v with _ | (_ | (_ | _) | _ | _ | _ | _) <;> simp_all [isBool]
+
+/-- without an else branch a false condition gives nothing -/
+theorem cond_false_no_else (c a : Expr) (hc : eval orc fuel c ctx = .ok (some (.bool false))) :
+    eval orc (fuel + 1) (.call "?" [c, a]) ctx = .ok none := by
+  call_simp [hc]
+
+/-- `default`: "Get the first non empty value." -/
+theorem default_nil : eval orc (fuel + 1) (.call "default" []) ctx = .ok none := rfl
+
+theorem default_value (a : Expr) (rest : List Expr) (v : JV) (ha : eval orc fuel a ctx = .ok (some v)) :
+    eval orc (fuel + 1) (.call "default" (a :: rest)) ctx = .ok (some v) := by
+  call_simp [ha, foldArgs]
+
+theorem default_nothing (a : Expr) (rest : List Expr) (ha : eval orc fuel a ctx = .ok none) :
+    eval orc (fuel + 1) (.call "default" (a :: rest)) ctx = eval orc (fuel + 1) (.call "default" rest) ctx := by
+  call_simp [ha, foldArgs]
+
+/-- the general form: nothings, then a value -/
+theorem default_first_value (pre post : List Expr) (e : Expr) (v : JV)
+    (h : ∀ e' ∈ pre, eval orc fuel e' ctx = .ok none) (he : eval orc fuel e ctx = .ok (some v)) :
+    eval orc (fuel + 1) (.call "default" (pre ++ e :: post)) ctx = .ok (some v) := by
+  induction pre with
+  | nil => exact default_value orc fuel ctx e post v he
+  | cons p ps ih =>
+    rw [List.cons_append, default_nothing orc fuel ctx p _ (h p List.mem_cons_self)]
+    exact ih (fun e' he' => h e' (List.mem_cons_of_mem _ he'))
+
+theorem default_all_nothing (args : List Expr) (h : ∀ e ∈ args, eval orc fuel e ctx = .ok none) :
+    eval orc (fuel + 1) (.call "default" args) ctx = .ok none := by
+  induction args with
+  | nil => rfl
+  | cons p ps ih =>
+    rw [default_nothing orc fuel ctx p _ (h p List.mem_cons_self)]
+    exact ih (fun e' he' => h e' (List.mem_cons_of_mem _ he'))
+
+/-- `empty?` / `nothing?`: "return true if the argument is nothing." -/
+theorem empty_nothing (a : Expr) (ha : eval orc fuel a ctx = .ok none) :
+    eval orc (fuel + 1) (.call "empty?" [a]) ctx = .ok (some (.bool true)) := by
+  call_simp [ha]
+
+theorem empty_value (a : Expr) (v : JV) (ha : eval orc fuel a ctx = .ok (some v)) :
+    eval orc (fuel + 1) (.call "empty?" [a]) ctx = .ok (some (.bool false)) := by
+  call_simp [ha]
+
+/-- the type tests always answer with a boolean (never nothing) -/
+theorem type_tests (a : Expr) (v : Option JV) (ha : eval orc fuel a ctx = .ok v) :
+    eval orc (fuel + 1) (.call "array?" [a]) ctx = .ok (some (.bool (isArr v))) ∧
+    eval orc (fuel + 1) (.call "object?" [a]) ctx = .ok (some (.bool (isObj v))) ∧
+    eval orc (fuel + 1) (.call "bool?" [a]) ctx = .ok (some (.bool (isBool v))) ∧
+    eval orc (fuel + 1) (.call "string?" [a]) ctx = .ok (some (.bool (strArg v).isSome)) ∧
+    eval orc (fuel + 1) (.call "number?" [a]) ctx = .ok (some (.bool (numArg v).isSome)) ∧
+    eval orc (fuel + 1) (.call "empty?" [a]) ctx = .ok (some (.bool v.isNone)) := by
+  refine ⟨?_, ?_, ?_, ?_, ?_, ?_⟩ <;>
+  · call_simp [ha]
+    rcases v with _ | (_ | _ | _ | _ | _ | _) <;> rfl
+
+/-- `|`: "Pipe the output of one function to the next function." -/
+theorem pipe_one (a : Expr) : 
+    eval orc (fuel + 1) (.call "|" [a]) ctx = eval orc fuel a (ctx.withInput ctx.input) := by
+  call_simp [callBasic.go]
+  cases eval orc fuel a (ctx.withInput ctx.input) with
+  | error e => rfl
+  | ok v => cases v <;> rfl
+
+theorem pipe_two (a b : Expr) (v : JV) (ha : eval orc fuel a (ctx.withInput ctx.input) = .ok (some v)) :
+    eval orc (fuel + 1) (.call "|" [a, b]) ctx = eval orc fuel b ((ctx.withInput ctx.input).withInput v) := by
+  call_simp [callBasic.go, ha]
+  cases eval orc fuel b ((ctx.withInput ctx.input).withInput v) with
+  | error e => rfl
+  | ok v => cases v <;> rfl
+
+/-- the pipe stops at the first nothing -/
+theorem pipe_nothing (a : Expr) (rest : List Expr) (ha : eval orc fuel a (ctx.withInput ctx.input) = .ok none) :
+    eval orc (fuel + 1) (.call "|" (a :: rest)) ctx = .ok none := by
+  call_simp [callBasic.go, ha]
+
+example : eval {} 5 (.call "=" [.const (.num (.pos 1)), .const (.num (.pos 3))]) {} = .ok (some (.bool false)) := by
+  rw [eq_vals {} 4 {} _ _ (.num (.pos 1)) (.num (.pos 3)) rfl rfl]; simp [JV.beq, Num.beq]
+example : eval {} 5 (.call "?" [.const (.bool true), .const (.num (.pos 1)), .const (.num (.pos 3))]) {}
+    = .ok (some (.num (.pos 1))) :=
+  cond_true {} 4 {} _ _ _ rfl
+example : eval {} 5 (.call "default" [.var "x".toList, .const (.num (.pos 3)), .const .null]) {}
+    = .ok (some (.num (.pos 3))) :=
+  default_first_value {} 4 {} [.var "x".toList] [.const .null] (.const (.num (.pos 3))) _
+    (by intro e he; simp at he; subst he; rfl) rfl
+
+/-! ## 9. Numeric results with zero fractional part are integers (`impl From<f64> for JsonValue`) -/
+
+/-- integral and in `[0, 2^64-1)`: a `Positive` integer, never a float -/
+theorem ofF64_pos (f : F64) (hfr : f.fractIsZero = true) (h0 : F64.le F64.zero f = true)
+    (h1 : F64.lt f (F64.ofNat (2 ^ 64 - 1)) = true) :
+    Num.ofF64 f = .pos f.toU64 := by
+  simp only [Num.ofF64, hfr, h0, h1, Bool.and_self, if_true]
+
+/-- a value below zero is not at least zero (IEEE comparisons of the model) -/
+theorem not_le_zero_of_lt_zero (f : F64) (h : F64.lt f F64.zero = true) : F64.le F64.zero f = false := by
+  cases f with
+  | nan => simp [F64.lt] at h
+  | inf s => cases s <;> simp_all [F64.lt, F64.le, F64.eq, F64.zero]
+  | fin s m e =>
+    by_cases hm : m = 0
+    · simp [F64.lt, F64.zero, hm] at h
+    · cases s <;> simp_all [F64.lt, F64.le, F64.eq, F64.zero]
+
+/-- integral and in `(-2^63, 0)`: a `Negative` integer, never a float -/
+theorem ofF64_neg (f : F64) (hfr : f.fractIsZero = true) (h0 : F64.lt f F64.zero = true)
+    (h1 : F64.lt (F64.ofInt (-(2 ^ 63))) f = true) :
+    Num.ofF64 f = .neg f.toI64 := by
+  simp only [Num.ofF64, hfr, h0, h1, not_le_zero_of_lt_zero f h0, Bool.false_and, Bool.and_self, if_true,
+    Bool.false_eq_true, if_false]
+
+/-- a non-zero fractional part (or an infinity / NaN): a float -/
+theorem ofF64_flt (f : F64) (hfr : f.fractIsZero = false) : Num.ofF64 f = .flt f := by
+  simp [Num.ofF64, hfr]
+
+/-- integral but outside both ranges: a float -/
+theorem ofF64_flt_big (f : F64)
+    (hp : (F64.le F64.zero f && F64.lt f (F64.ofNat (2 ^ 64 - 1))) = false)
+    (hn : (F64.lt f F64.zero && F64.lt (F64.ofInt (-(2 ^ 63))) f) = false) : Num.ofF64 f = .flt f := by
+  unfold Num.ofF64
+  rw [hp, hn]
+  simp
+
+/-- so an integral value in range is never rendered through the float printer -/
+theorem ofF64_not_flt (f : F64) (hfr : f.fractIsZero = true)
+    (h : (F64.le F64.zero f = true ∧ F64.lt f (F64.ofNat (2 ^ 64 - 1)) = true) ∨
+         (F64.lt f F64.zero = true ∧ F64.lt (F64.ofInt (-(2 ^ 63))) f = true)) :
+    ∀ g, Num.ofF64 f ≠ .flt g := by
+  intro g
+  rcases h with ⟨h0, h1⟩ | ⟨h0, h1⟩
+  · rw [ofF64_pos f hfr h0 h1]; exact fun h => Num.noConfusion h
+  · rw [ofF64_neg f hfr h0 h1]; exact fun h => Num.noConfusion h
+
+example : Num.ofF64 (F64.ofNat 7) = .pos 7 := by
+  rw [ofF64_pos _ (by decide) (by decide) (by decide)]; decide
+example : Num.ofF64 (F64.ofInt (-7)) = .neg (-7) := by
+  rw [ofF64_neg _ (by decide) (by decide) (by decide)]; decide
+example : Num.ofF64 (F64.fin false 3 (-1)) = .flt (F64.fin false 3 (-1)) := ofF64_flt _ (by decide)
+
+/-- `+` on two numbers: the `f64` sum (starting from `0.0`), converted back by `From<f64>`; an overflow is nothing -/
+theorem add_nums (a b : Expr) (x y : Num)
+    (ha : eval orc fuel a ctx = .ok (some (.num x))) (hb : eval orc fuel b ctx = .ok (some (.num y))) :
+    eval orc (fuel + 1) (.call "+" [a, b]) ctx =
+      .ok (jnumFinite (F64.add (F64.add F64.zero x.toF64) y.toF64)) := by
+  call_simp [ha, hb, foldArgs]
+
+/-- a non-number argument ⇒ nothing -/
+theorem add_non_number_left (a b : Expr) (v : Option JV) (hv : numArg v = none)
+    (ha : eval orc fuel a ctx = .ok v) :
+    eval orc (fuel + 1) (.call "+" [a, b]) ctx = .ok none := by
+  call_simp [ha, foldArgs]
+  simp only [numArg] at hv
+  simp only [hv]
+
+theorem add_non_number_right (a b : Expr) (x : Num) (w : Option JV) (hw : numArg w = none)
+    (ha : eval orc fuel a ctx = .ok (some (.num x))) (hb : eval orc fuel b ctx = .ok w) :
+    eval orc (fuel + 1) (.call "+" [a, b]) ctx = .ok none := by
+  call_simp [ha, hb, foldArgs]
+  simp only [numArg] at hw
+  simp only [hw]
+
+/-- when the `f64` sum is finite, integral and in `[0, 2^64-1)` the result of `+` is an integer value -/
+theorem add_nums_integral (a b : Expr) (x y : Num) (s : F64)
+    (hs : F64.add (F64.add F64.zero x.toF64) y.toF64 = s)
+    (hfin : s.isFinite = true) (hfr : s.fractIsZero = true) (h0 : F64.le F64.zero s = true)
+    (h1 : F64.lt s (F64.ofNat (2 ^ 64 - 1)) = true)
+    (ha : eval orc fuel a ctx = .ok (some (.num x))) (hb : eval orc fuel b ctx = .ok (some (.num y))) :
+    eval orc (fuel + 1) (.call "+" [a, b]) ctx = .ok (some (.num (.pos s.toU64))) := by
+  rw [add_nums orc fuel ctx a b x y ha hb, hs]
+  simp only [jnumFinite, hfin, if_true, jnum, ofF64_pos s hfr h0 h1]
+
+example : eval {} 5 (.call "+" [.const (.num (.pos 2)), .const (.num (.pos 3))]) {} = .ok (some (.num (.pos 5))) := by
+  rw [add_nums_integral {} 4 {} _ _ (.pos 2) (.pos 3) _ rfl (by decide +kernel) (by decide +kernel)
+    (by decide +kernel) (by decide +kernel) rfl rfl]
+  have : (F64.add (F64.add F64.zero (Num.pos 2).toF64) (Num.pos 3).toF64).toU64 = 5 := by decide +kernel
+  rw [this]
+
+/-! ### exact integer addition: `F64.add (ofNat m) (ofNat n) = ofNat (m + n)` below `2^53` -/
+
+theorem scaleDiv_exact (k j t : Nat) :
+    F64.scaleDiv (k * 2 ^ j) (2 ^ j) (-(t : Int)) = (k * 2 ^ t, 0, 2 ^ j) := by
+  unfold F64.scaleDiv
+  by_cases ht : t = 0
+  · subst ht
+    simp [Nat.mul_div_cancel _ (Nat.two_pow_pos j)]
+  · have h1 : ¬ (0 : Int) ≤ -(t : Int) := by omega
+    have h2 : (- -(t : Int)).toNat = t := by omega
+    simp only [h1, if_false, h2]
+    have : k * 2 ^ j * 2 ^ t = (k * 2 ^ t) * 2 ^ j := by
+      rw [Nat.mul_assoc, Nat.mul_comm (2 ^ j), ← Nat.mul_assoc]
+    rw [this, Nat.mul_div_cancel _ (Nat.two_pow_pos j), Nat.mul_mod_left]
+
+theorem log2_mul_two_pow (k j : Nat) (hk0 : k ≠ 0) : Nat.log2 (k * 2 ^ j) = Nat.log2 k + j := by
+  have hpos : k * 2 ^ j ≠ 0 := Nat.mul_ne_zero hk0 (Nat.pos_iff_ne_zero.1 (Nat.two_pow_pos j))
+  rw [Nat.log2_eq_iff hpos]
+  constructor
+  · rw [Nat.pow_add]; exact Nat.mul_le_mul_right _ (Nat.log2_self_le hk0)
+  · rw [show Nat.log2 k + j + 1 = (Nat.log2 k + 1) + j by omega, Nat.pow_add]
+    exact Nat.mul_lt_mul_of_pos_right Nat.lt_log2_self (Nat.two_pow_pos j)
+
+/-- an integer below `2^53`, given as a fraction with a power of two as denominator, is rounded to itself -/
+theorem roundRat_exact (s : Bool) (k j : Nat) (hk0 : k ≠ 0) (hk : k < 2 ^ 53) :
+    F64.roundRat s (k * 2 ^ j) (2 ^ j) = .fin s (k * 2 ^ (52 - Nat.log2 k)) (-((52 - Nat.log2 k : Nat) : Int)) := by
+  have hL : Nat.log2 k < 53 := (Nat.log2_lt hk0).2 hk
+  have hpos : k * 2 ^ j ≠ 0 := Nat.mul_ne_zero hk0 (Nat.pos_iff_ne_zero.1 (Nat.two_pow_pos j))
+  have hden : (2 : Nat) ^ j ≠ 0 := Nat.pos_iff_ne_zero.1 (Nat.two_pow_pos j)
+  have he1 : ((Nat.log2 (k * 2 ^ j) : Nat) : Int) - ((Nat.log2 (2 ^ j) : Nat) : Int) - 52
+      = -((52 - Nat.log2 k : Nat) : Int) := by
+    rw [log2_mul_two_pow k j hk0, Nat.log2_two_pow]; omega
+  generalize ht : 52 - Nat.log2 k = t at he1 ⊢
+  have hq1 : 2 ^ 52 ≤ k * 2 ^ t := by
+    have h := Nat.mul_le_mul_right (2 ^ t) (Nat.log2_self_le hk0)
+    rw [← Nat.pow_add, show Nat.log2 k + t = 52 by omega] at h
+    exact h
+  have hq2 : k * 2 ^ t < 2 ^ 53 := by
+    have h := Nat.mul_lt_mul_of_pos_right (Nat.lt_log2_self (n := k)) (Nat.two_pow_pos t)
+    rw [← Nat.pow_add, show Nat.log2 k + 1 + t = 53 by omega] at h
+    exact h
+  unfold F64.roundRat
+  simp only [hpos, hden, or_self, if_false, he1, scaleDiv_exact]
+  have hge : k * 2 ^ t ≥ 2 ^ 52 := hq1
+  have hlt : ¬ (-(t : Int) < -1074) := by omega
+  simp only [hge, if_true, hlt, if_false, scaleDiv_exact]
+  have hd1 : ¬ (2 * 0 > 2 ^ j) := by simp
+  have hd2 : ¬ (2 * 0 = 2 ^ j) := by have := Nat.two_pow_pos j; omega
+  have hne : k * 2 ^ t ≠ 2 ^ 53 := Nat.ne_of_lt hq2
+  have h971 : ¬ (-(t : Int) > 971) := by omega
+  simp only [hd1, hd2, decide_false, Bool.false_and, Bool.or_self, Bool.false_eq_true, if_false, hne, h971]
+
+/-- the exact value of a double holding the integer `n` scaled by `2^t` -/
+theorem toRat_scaled (s : Bool) (n t : Nat) :
+    (F64.fin s (n * 2 ^ t) (-(t : Int))).toRat = (n * 2 ^ t, 2 ^ t) := by
+  unfold F64.toRat
+  by_cases ht : t = 0
+  · subst ht; simp
+  · have h1 : ¬ (0 : Int) ≤ -(t : Int) := by omega
+    have h2 : (- -(t : Int)).toNat = t := by omega
+    simp only [h1, if_false, h2]
+
+set_option exponentiation.threshold 2000 in
+/-- every natural number below `2^53` is a double, exactly: `ofNat n` is `n * 2^p / 2^p` -/
+theorem ofNat_exact (n : Nat) (hn : n < 2 ^ 53) :
+    ∃ m e p, F64.ofNat n = .fin false m e ∧ (F64.fin false m e).toRat = (n * 2 ^ p, 2 ^ p) := by
+  by_cases h0 : n = 0
+  · subst h0
+    refine ⟨0, -1074, 1074, rfl, ?_⟩
+    simp only [F64.toRat]
+    rw [if_neg (by decide)]
+    exact Prod.ext (Nat.zero_mul _).symm rfl
+  · refine ⟨_, _, 52 - Nat.log2 n, ?_, toRat_scaled false n _⟩
+    have := roundRat_exact false n 0 h0 hn
+    simpa [F64.ofNat] using this
+
+theorem ofNat_zero : F64.ofNat 0 = F64.zero := rfl
+
+/-- the sum of two non-negative doubles holding integers, when the sum is below `2^53`, is the exact integer -/
+theorem add_exact (m1 m2 : Nat) (e1 e2 : Int) (x y p q : Nat)
+    (h1 : (F64.fin false m1 e1).toRat = (x * 2 ^ p, 2 ^ p))
+    (h2 : (F64.fin false m2 e2).toRat = (y * 2 ^ q, 2 ^ q)) (hlt : x + y < 2 ^ 53) :
+    F64.add (.fin false m1 e1) (.fin false m2 e2) = F64.ofNat (x + y) := by
+  have hN : x * 2 ^ p * 2 ^ q + y * 2 ^ q * 2 ^ p = (x + y) * 2 ^ (p + q) := by
+    rw [Nat.pow_add, Nat.add_mul, Nat.mul_assoc, Nat.mul_assoc, Nat.mul_comm (2 ^ q) (2 ^ p)]
+  simp only [F64.add, h1, h2, F64.addRat, BEq.rfl, if_true, hN, ← Nat.pow_add, Bool.and_self]
+  by_cases h0 : x + y = 0
+  · simp [h0, F64.ofNat, F64.roundRat]
+  · have hne : (x + y) * 2 ^ (p + q) ≠ 0 := Nat.mul_ne_zero h0 (Nat.pos_iff_ne_zero.1 (Nat.two_pow_pos _))
+    rw [if_neg hne, roundRat_exact false (x + y) (p + q) h0 hlt]
+    have := roundRat_exact false (x + y) 0 h0 hlt
+    simp only [Nat.pow_zero, Nat.mul_one] at this
+    rw [F64.ofNat, this]
+
+/-- `f64` addition of two natural numbers is exact as long as the sum is below `2^53` -/
+theorem add_ofNat (m n : Nat) (h : m + n < 2 ^ 53) : F64.add (F64.ofNat m) (F64.ofNat n) = F64.ofNat (m + n) := by
+  obtain ⟨m1, e1, p, hm, hm'⟩ := ofNat_exact m (by omega)
+  obtain ⟨m2, e2, q, hn, hn'⟩ := ofNat_exact n (by omega)
+  rw [hm, hn, add_exact m1 m2 e1 e2 m n p q hm' hn' h]
+
+theorem zero_add_ofNat (n : Nat) (h : n < 2 ^ 53) : F64.add F64.zero (F64.ofNat n) = F64.ofNat n := by
+  have := add_ofNat 0 n (by omega)
+  rwa [ofNat_zero, Nat.zero_add] at this
+
+theorem ofNat_max : F64.ofNat (2 ^ 64 - 1) = .fin false (2 ^ 52) 12 := by decide +kernel
+
+/-- a natural number below `2^53` survives the trip through `f64` -/
+theorem ofF64_ofNat (k : Nat) (hk : k < 2 ^ 53) : Num.ofF64 (F64.ofNat k) = .pos k := by
+  by_cases h0 : k = 0
+  · subst h0; decide +kernel
+  · have hex := roundRat_exact false k 0 h0 hk
+    simp only [Nat.pow_zero, Nat.mul_one] at hex
+    generalize ht : 52 - Nat.log2 k = t at hex
+    have hf : F64.ofNat k = .fin false (k * 2 ^ t) (-(t : Int)) := hex
+    have hM : k * 2 ^ t ≠ 0 := Nat.mul_ne_zero h0 (Nat.pos_iff_ne_zero.1 (Nat.two_pow_pos _))
+    have hfr : (F64.ofNat k).fractIsZero = true := by
+      rw [hf]; unfold F64.fractIsZero
+      simp [hM]
+    have hle : F64.le F64.zero (F64.ofNat k) = true := by
+      rw [hf]; simp [F64.le, F64.lt, F64.zero, hM]
+    have hlt : F64.lt (F64.ofNat k) (F64.ofNat (2 ^ 64 - 1)) = true := by
+      rw [ofNat_max, hf]
+      have h12 : (F64.fin false (2 ^ 52) 12).toRat = (2 ^ 64, 1) := by decide +kernel
+      simp only [F64.lt, hM, false_and, if_false, show (2 : Nat) ^ 52 ≠ 0 by decide, F64.cmpMag, toRat_scaled, h12]
+      have : k * 2 ^ t * 1 < 2 ^ 64 * 2 ^ t := by
+        rw [Nat.mul_one]; exact Nat.mul_lt_mul_of_pos_right (by omega) (Nat.two_pow_pos t)
+      rw [Nat.compare_eq_lt.2 this]; rfl
+    have hu : (F64.ofNat k).toU64 = k := by
+      rw [hf]
+      simp only [F64.toU64, toRat_scaled, Bool.false_eq_true, if_false, Nat.mul_div_cancel _ (Nat.two_pow_pos t)]
+      rw [if_neg (by omega)]
+    rw [ofF64_pos _ hfr hle hlt, hu]
+
+/-- `(+ a b)` on two non-negative integers whose sum is below `2^53` is the exact integer sum -/
+theorem add_pos_pos (a b : Expr) (m n : Nat) (h : m + n < 2 ^ 53)
+    (ha : eval orc fuel a ctx = .ok (some (.num (.pos m)))) (hb : eval orc fuel b ctx = .ok (some (.num (.pos n)))) :
+    eval orc (fuel + 1) (.call "+" [a, b]) ctx = .ok (some (.num (.pos (m + n)))) := by
+  rw [add_nums orc fuel ctx a b _ _ ha hb]
+  simp only [Num.toF64]
+  rw [zero_add_ofNat m (by omega), add_ofNat m n h]
+  obtain ⟨m1, e1, p, hm, -⟩ := ofNat_exact (m + n) h
+  simp only [jnumFinite, jnum, ofF64_ofNat (m + n) h]
+  rw [hm]; rfl
+
+example : eval {} 5 (.call "+" [.const (.num (.pos 1234567)), .const (.num (.pos 7654321))]) {}
+    = .ok (some (.num (.pos 8888888))) :=
+  add_pos_pos {} 4 {} _ _ 1234567 7654321 (by decide) rfl rfl
+
+/-! ## Further non-vacuity examples (the hypotheses of the laws are satisfiable by concrete calls) -/
+
+section Examples
+private def l3 : List JV := [.num (.pos 1), .str "x".toList, .null]
+private def o2 : List (Str × JV) := [("k1".toList, .num (.pos 1)), ("k2".toList, .bool false)]
+
+example : eval {} 5 (.call "head" [.const (.str "test-123".toList), .const (.num (.pos 4))]) {}
+    = .ok (some (.str "test".toList)) := head_str {} 4 {} _ _ "test-123".toList 4 rfl rfl
+example : eval {} 5 (.call "first" [.const (.arr l3)]) {} = .ok (some (.num (.pos 1))) := first_arr {} 4 {} _ l3 rfl
+example : eval {} 5 (.call "last" [.const (.arr l3)]) {} = .ok (some .null) := last_arr {} 4 {} _ l3 rfl
+example : eval {} 5 (.call "first" [.const (.arr [])]) {} = .ok none := first_arr {} 4 {} _ [] rfl
+example : eval {} 5 (.call "pop" [.const (.arr l3)]) {} = .ok (some (.arr [.num (.pos 1), .str "x".toList])) :=
+  pop_arr {} 4 {} _ l3 rfl
+example : eval {} 5 (.call "pop_first" [.const (.arr l3)]) {} = .ok (some (.arr [.str "x".toList, .null])) :=
+  pop_first_arr {} 4 {} _ l3 rfl
+example : eval {} 5 (.call "push" [.const (.arr l3), .const (.bool true), .var "unset".toList, .const .null]) {}
+    = .ok (some (.arr (l3 ++ [.bool true, .null]))) :=
+  push_arr_many {} 4 {} _ _ l3 [some (.bool true), none, some .null] rfl rfl
+example : eval {} 5 (.call "push_front" [.const (.arr l3), .const (.bool true), .const .null]) {}
+    = .ok (some (.arr (.null :: .bool true :: l3))) :=
+  push_front_arr2 {} 4 {} _ _ _ l3 (.bool true) .null rfl rfl rfl
+example : eval {} 5 (.call "pop" [.call "push" [.const (.arr l3), .const (.bool true)]]) {} = .ok (some (.arr l3)) :=
+  pop_push {} 3 {} _ _ l3 (.bool true) rfl rfl
+example : eval {} 5 (.call "take_last" [.const (.obj o2), .const (.num (.pos 1))]) {}
+    = .ok (some (.obj [("k2".toList, .bool false)])) := take_last_obj {} 4 {} _ _ o2 1 rfl rfl
+example : eval {} 5 (.call "values" [.const (.obj o2)]) {} = .ok (some (.arr [.num (.pos 1), .bool false])) :=
+  values_obj {} 4 {} _ o2 rfl
+example : eval {} 5 (.call "entries" [.const (.obj o2)]) {} = .ok (some (.arr
+    [.obj [("value".toList, .num (.pos 1)), ("key".toList, .str "k1".toList)],
+     .obj [("value".toList, .bool false), ("key".toList, .str "k2".toList)]])) :=
+  entries_obj {} 4 {} _ o2 rfl
+example : eval {} 5 (.call "get" [.call "keys" [.const (.obj o2)], .const (.num (.pos 1))]) {}
+    = .ok (some (.str "k2".toList)) := get_keys {} 3 {} _ _ o2 1 rfl rfl
+example : eval {} 5 (.call "get" [.const (.obj o2), .const (.str "zz".toList)]) {} = .ok none :=
+  get_obj_absent {} 4 {} _ _ o2 "zz".toList (by decide) rfl rfl
+/-- `map` drops the items on which the function gives nothing: `(map [[1], 2, [3,4]] (first .))` -/
+example : eval {} 5 (.call "map" [.const (.arr [.arr [.null], .bool true, .arr [.bool false, .null]]),
+      .call "first" [.extract 0 []]]) {} = .ok (some (.arr [.null, .bool false])) := by
+  rw [map_arr {} 4 {} _ _ [.arr [.null], .bool true, .arr [.bool false, .null]]
+    (fun v => match v with | .arr l => l.head? | _ => none) rfl
+    (by intro v hv; simp at hv; rcases hv with rfl | rfl | rfl <;> rfl)]
+  rfl
+/-- an abort inside the function is the only way `map` aborts -/
+example : eval {} 5 (.call "map" [.const (.arr [.null]), .call "no-such-function" []]) {}
+    = .error (.panic "unmodelled-function:no-such-function") :=
+  map_arr_error {} 4 {} _ _ [.null] _ rfl rfl
+example : eval {} 5 (.call "and" [.const (.bool true), .const (.bool true), .const (.bool true)]) {}
+    = .ok (some (.bool true)) :=
+  and_all_true {} 4 {} _ (by intro e he; simp at he; subst he; rfl)
+example : eval {} 5 (.call "or" [.const (.bool false), .const (.bool true), .call "no-such-function" []]) {}
+    = .ok (some (.bool true)) :=
+  or_first_true {} 4 {} [.const (.bool false)] [.call "no-such-function" []] (.const (.bool true))
+    (by intro e he; simp at he; subst he; rfl) rfl
+example : eval {} 5 (.call "not" [.const (.num (.pos 1))]) {} = .ok none :=
+  not_non_bool {} 4 {} _ (some (.num (.pos 1))) rfl rfl
+example : eval {} 5 (.call "?" [.const (.bool false), .const (.num (.pos 1)), .const (.num (.pos 3))]) {}
+    = .ok (some (.num (.pos 3))) := cond_false {} 4 {} _ _ _ rfl
+example : eval {} 5 (.call "?" [.const .null, .const (.num (.pos 1)), .const (.num (.pos 3))]) {} = .ok none :=
+  cond_non_bool {} 4 {} _ _ _ (some .null) rfl rfl
+example : eval {} 5 (.call "default" [.var "x".toList, .var "y".toList]) {} = .ok none :=
+  default_all_nothing {} 4 {} _ (by intro e he; simp at he; rcases he with rfl | rfl <;> rfl)
+example : eval {} 5 (.call "<" [.const (.num (.pos 1)), .var "x".toList]) {} = .ok none :=
+  cmp_nothing {} 4 {} "<" (by decide) _ _ (some (.num (.pos 1))) none (.inr rfl) rfl rfl
+example : eval {} 5 (.call "<" [.const .null, .const (.bool true)]) {} = .ok (some (.bool true)) := by
+  rw [lt_vals {} 4 {} _ _ .null (.bool true) rfl rfl]; simp [JV.cmp, JV.rank]; rfl
+example : eval {} 5 (.call "|" [.const (.arr l3), .call "size" [.extract 0 []]]) {} = .ok (some (.num (.pos 3))) := by
+  rw [pipe_two {} 4 {} _ _ (.arr l3) rfl]; rfl
+example : eval {} 5 (.call "+" [.const (.str "1".toList), .const (.num (.pos 3))]) {} = .ok none :=
+  add_non_number_left {} 4 {} _ _ (some (.str "1".toList)) rfl rfl
+example : ∃ r, eval {} 5 (.call "take" [.const (.num (.pos 50)), .const (.num (.flt (.fin false 3 (-1))))]) {} = .ok r :=
+  take_total {} 4 {} _ _ _ _ rfl rfl
+example : Num.ofF64 (F64.ofNat 9007199254740991) = .pos 9007199254740991 := ofF64_ofNat _ (by decide)
+example : F64.add (F64.ofNat 4503599627370496) (F64.ofNat 4503599627370495) = F64.ofNat 9007199254740991 :=
+  add_ofNat _ _ (by decide)
+end Examples
+
+/-
+  Axiom audit (`#print axioms` on every theorem of this file, 2026-09-29):
+  all ⊆ {propext, Classical.choice, Quot.sound}.
+  e.g.  #print axioms take_arr  /  filter_arr_result  /  add_pos_pos  /  ofF64_ofNat
+-/
 
 end Jawk.EvalLaws
